@@ -15,8 +15,10 @@ EDGE_CLASSES = [
     "SubDirected",
     "SubUnDirected",
     "OtherTwoEnded",
+    "RenamedDirected",
+    "FalsyClassEdge",
 ]
-KNOWN_EDGE_CLASSES = EDGE_CLASSES[:4]
+KNOWN_EDGE_CLASSES = EDGE_CLASSES[:4] + EDGE_CLASSES[5:]
 
 # ---- operation kinds by family -----------------------------------------------
 LINK_MUTATORS = [
